@@ -1,4 +1,4 @@
-import GuppyVerif.Lemmas.C06Complete
+import GuppyVerif.Lemmas.C06Crash
 /-! # C06 — Linearity: qubits are used exactly once on every path
 
 Property theorems only.  `checkCfg` (Model/Linearity.lean) is the model of
@@ -85,6 +85,17 @@ def exBad : Prog := { exProg with stmts := fun b => if b = 3 then [] else exProg
 example : (match checkCfg exBad with | .error e => some e | .ok _ => none) = some (.usedThenLive true) := by
   decide +kernel
 
+/-- and the specification has teeth: `exBad` is not good — on the path 0 → 3 → 4 → 6 → exit the
+    borrowed field `s.a` (leaf 0) has been moved out when it should be handed back -/
+example : ¬ Good exBad := by
+  intro hg
+  have w0 : Walk exBad [] 0 := Walk.entry
+  have w3 : Walk exBad [0] 3 := Walk.step w0 (by decide)
+  have w4 : Walk exBad [0, 3] 4 := Walk.step w3 (by decide)
+  have w6 : Walk exBad [0, 3, 4] 6 := Walk.step w4 (by decide)
+  have w1 : Walk exBad [0, 3, 4, 6] 1 := Walk.step w6 (by decide)
+  exact (hg.leaves 0 (by decide)).noBadUse _ _ w1 (by decide)
+
 /-! ## Completeness
 
 Full statement (kept for reference; it is **false of the code**, see `lin_complete_false_G1`):
@@ -92,24 +103,33 @@ Full statement (kept for reference; it is **false of the code**, see `lin_comple
 
 What is proved: outside the two known gaps (`NoGap`: no borrowed linear leaf, or the exit is
 reachable from every block) a good program is never rejected with a user error; the only other
-outcomes of the model are `crash` (a place that is in no scope: excluded by the type checker's
-invariants on block signatures, C08) and `fuel` (the liveness worklist not finishing within the
-model's fuel; termination is not part of the C09 theorems). -/
+outcome of the model is `crash` (a place that is in no scope: excluded by the type checker's
+invariants on block signatures, C08).  The liveness worklist provably finishes within the
+model's fuel for every scheduler (`liveRun_flow_isSome`, Lemmas/C06Term*.lean), so the outcome
+`fuel` cannot occur. -/
 
-/-- **Completeness (partial: `NoGap`, and up to the internal outcomes `crash` / `fuel`).**
+/-- **Completeness (partial: `NoGap`, and up to the internal outcome `crash`).**
     If every path from the entry is good and the ownership rules are respected, the checker does
     not raise `AlreadyUsedError`, `PlaceNotUsedError`, `NotOwnedError`, `BorrowShadowedError`,
     `BorrowSubPlaceUsedError` or `UnnamedExprNotUsedError`. -/
 theorem lin_complete_partial (P : Prog) (hw : P.WF)
     (hr : ∀ b ∈ P.blocks, b ≠ P.exit → Reachable P b) (hgap : NoGap P) (hg : Good P) :
-    ∀ e, checkCfg P = .error e → e = .crash ∨ e = .fuel :=
+    ∀ e, checkCfg P = .error e → e = .crash :=
   fun _ h => checkCfg_no_user_err hw hr hgap hg h
 
 /-- Completeness for the variable-only fragment (a special case of `lin_complete_partial`). -/
 theorem lin_complete_vars_partial (P : Prog) (hw : P.WF) (_hv : ∀ b, ∀ st ∈ P.stmts b, st.VarsOnly)
     (hr : ∀ b ∈ P.blocks, b ≠ P.exit → Reachable P b) (hgap : NoGap P) (hg : Good P) :
-    ∀ e, checkCfg P = .error e → e = .crash ∨ e = .fuel :=
+    ∀ e, checkCfg P = .error e → e = .crash :=
   lin_complete_partial P hw hr hgap hg
+
+/-- **The place-level liveness inside the checker terminates**, for every program, every scope
+    table and every visiting order, within the fuel the model grants (so `checkCfg` never returns
+    `fuel` after pass 1 succeeded). -/
+theorem live_terminates (P : Prog) (sc : Blk → Scope) (init : List Leaf) (sched : List Blk → Blk) :
+    (Dataflow.liveRun (flowCfg P sc) sched (liveFuel (flowCfg P sc) init)
+      (Dataflow.liveInit (flowCfg P sc) init)).isSome = true :=
+  liveRun_flow_isSome P sc init sched
 
 /-! non-vacuity of `lin_complete_partial`: `exProg` meets all hypotheses -/
 
@@ -145,8 +165,81 @@ theorem exProg_noGap : NoGap exProg := by
   simp only [exProg, List.mem_cons, List.not_mem_nil, or_false] at hb
   rcases hb with rfl | rfl | rfl | rfl | rfl | rfl | rfl <;> assumption
 
-example : ∀ e, checkCfg exProg = .error e → e = .crash ∨ e = .fuel :=
+example : ∀ e, checkCfg exProg = .error e → e = .crash :=
   lin_complete_partial exProg exProg_wf exProg_reach exProg_noGap
+    (lin_sound exProg exProg_wf (accepts_iff.mp (by decide +kernel)))
+
+/-- **No internal error**: when the block signatures cover what is read (`RowsOK`: a leaf that
+    some continuation reads before redefining it is in the block's input row — the type checker's
+    variable-level liveness and definedness checks provide this) the checker never fails on a
+    place that is in no scope.  Independent of linearity. -/
+theorem lin_no_crash_partial (P : Prog) (hw : P.WF) (hrows : RowsOK P) (hgap : NoGap P) :
+    checkCfg P ≠ .error .crash :=
+  checkCfg_no_crash hw hrows hgap
+
+/-- **Completeness, with acceptance as conclusion** (partial only in `NoGap`): every path good,
+    ownership rules respected, signatures covering what is read ⇒ the checker accepts. -/
+theorem lin_complete_rows_partial (P : Prog) (hw : P.WF)
+    (hr : ∀ b ∈ P.blocks, b ≠ P.exit → Reachable P b) (hgap : NoGap P) (hrows : RowsOK P) (hg : Good P) :
+    checkCfg P = .ok () := by
+  cases h : checkCfg P with
+  | ok u => cases u; rfl
+  | error e =>
+    have := lin_complete_partial P hw hr hgap hg e h
+    subst this
+    exact absurd h (lin_no_crash_partial P hw hrows hgap)
+
+theorem not_willUse_of_no_evs {P : Prog} {l : Leaf} (h : ∀ b, P.blockEvs l b = []) (b : Blk) : ¬ WillUse P l b := by
+  intro hu
+  induction hu with
+  | here hh => simp [h] at hh
+  | later _ _ _ ih => exact ih
+
+theorem exProg_rows : RowsOK exProg := by
+  intro b hb (x : Nat) hu
+  by_cases hx : x ≤ 4
+  · -- the five leaves of the program: decide block by block
+    have hx' : x = 0 ∨ x = 1 ∨ x = 2 ∨ x = 3 ∨ x = 4 := by omega
+    simp only [exProg, List.mem_cons, List.not_mem_nil, or_false] at hb
+    rcases hb with rfl | rfl | rfl | rfl | rfl | rfl | rfl
+    · rcases hx' with rfl | rfl | rfl | rfl | rfl
+      · decide
+      · decide
+      · decide
+      · decide
+      · exfalso
+        cases hu with
+        | here hh => exact absurd hh (by decide)
+        | later he _ _ => exact absurd he (by decide)
+    · rcases hx' with rfl | rfl | rfl | rfl | rfl
+      · decide
+      · decide
+      all_goals
+        exfalso
+        cases hu with
+        | here hh => exact absurd hh (by decide)
+        | later _ hc _ => simp [exProg] at hc
+    all_goals (rcases hx' with rfl | rfl | rfl | rfl | rfl <;> decide)
+  · exfalso
+    refine not_willUse_of_no_evs (P := exProg) (l := x) ?_ b hu
+    intro c
+    have h0 : x ≠ 0 := by omega
+    have h1 : x ≠ 1 := by omega
+    have h2 : x ≠ 2 := by omega
+    have h3 : x ≠ 3 := by omega
+    have h4 : x ≠ 4 := by omega
+    have hb : x ∉ exProg.borrowedLeaves := by simp [exProg]; omega
+    unfold Prog.blockEvs
+    simp only [hb, and_false, if_false, List.append_nil]
+    match c with
+    | 0 | 2 | 3 | 4 | 5 | 6 =>
+      simp [exProg, Stmt.evs, placesEvs, leafEvs, pl, vr, Arg.place, Arg.isInout, Ne.symm h0, Ne.symm h1, Ne.symm h2,
+        Ne.symm h3, Ne.symm h4]
+    | 1 => rfl
+    | (n + 7) => rfl
+
+example : checkCfg exProg = .ok () :=
+  lin_complete_rows_partial exProg exProg_wf exProg_reach exProg_noGap exProg_rows
     (lin_sound exProg exProg_wf (accepts_iff.mp (by decide +kernel)))
 
 /-! ## The full completeness statement is false of the code (gap G1)
